@@ -44,6 +44,14 @@ def translate():
     f["checks_periodic_reflective_overlap"] = "overlap=set(self.periodic).intersection(set(self.reflective))ifoverlap:errors.append(" in vt
     f["checks_periodic_indices_in_range"] = "ifself.periodicisnotNone:ifnotall((isinstance(i,int)and0<=i<self.n_dimforiinself.periodic)):errors.append(" in vt
     f["checks_reflective_indices_in_range"] = "ifself.reflectiveisnotNone:ifnotall((isinstance(i,int)and0<=i<self.n_dimforiinself.reflective)):errors.append(" in vt
+    # every check stands on its own: none is chained to another one by else / elif (a chained check is skipped whenever the one before fires
+    # or merely applies), and none sits inside another check's body
+    tops = [st_ for st_ in strip_doc(val.body) if isinstance(st_, ast.If)]
+    need(all(not st_.orelse for st_ in tops), val, "a validation check is chained to the previous one by else/elif", w)
+    heads = [_ns(st_.test) for st_ in tops]
+    for h in ("self.periodicisnotNone", "self.reflectiveisnotNone", "self.volume_variationisnotNone", "self.samplenotin['tpcn','rwm']",
+              "self.resamplenotin['mult','syst']", "self.vectorizeandself.blobs_dtypeisnotNone", "errors"):
+        need(h in heads, val, f"check `{h}` is a statement of validate() itself", w)
     f["errors_raise_value_error"] = "iferrors:raiseValueError(" in vt
     f["post_init_calls_validate"] = "self.validate()" in pt
     f["default_n_particles_is_twice_n_dim"] = "ifself.n_particlesisNone:object.__setattr__(self,'n_particles',2*self.n_dim)" in pt.replace("\n", "")
@@ -149,6 +157,18 @@ def factor_cases():
     cases.append(dict(BASE, vectorize=True, blobs_dtype="float"))
     cases.append(dict(BASE, vectorize=True))
     cases.append(dict(BASE, blobs_dtype="float"))
+    # two factors: every value above again, next to valid non-default settings of the OTHER options (a check must not depend on
+    # whether another option is given)
+    singles = list(cases[1:])
+    for other in (dict(periodic=[1]), dict(reflective=[1]), dict(sample="rwm", resample="syst", vectorize=True),
+                  dict(volume_variation=0.5, ess_ratio=2.0), dict(periodic=[0], reflective=[1], blobs_dtype="float")):
+        for c in singles:
+            changed = [k for k in c if c[k] != BASE.get(k, None) or k not in BASE]
+            if any(k in other for k in changed):
+                continue
+            c2 = dict(c, **other)
+            if c2 not in cases:
+                cases.append(c2)
     return cases
 
 
@@ -210,6 +230,13 @@ class PoolLike:
         return list(map(f, xs))
 
 
+class LazyPool:
+    """a pool whose map hands back an iterator (concurrent.futures executors do)"""
+
+    def map(self, f, xs):
+        return map(f, xs)
+
+
 def pt(u):
     return 8.0 * u - 4.0
 
@@ -249,6 +276,8 @@ def run_valid(args):
         kw["periodic"], kw["reflective"] = [1], [0]
     if row["pool"] == "int2":
         kw["pool"] = 2   # the integer form: the library starts its own worker processes
+    elif row["pool"] == "lazy":
+        kw["pool"] = LazyPool()
     elif row["pool"]:
         kw["pool"] = PoolLike()
     try:
@@ -302,7 +331,7 @@ def check_valid(run, tier, rng, work):
     opts = dict(sample=["tpcn", "rwm"], resample=["mult", "syst"], clustering=[True, False], normalize=[True, False],
                 cluster_every=[1, 2, 3], n_max_clusters=[None, 1, 2, 3], split_threshold=[0.5, 1.0, 2.0], vv=[None, 0.5],
                 n_steps=[None, 1, 3], n_max_steps=[None, 5], like=["scalar", "vectorized", "blobs"],
-                bc=["none", "periodic", "reflective", "mixed"], pool=[False, True], save_every=[None, 2])
+                bc=["none", "periodic", "reflective", "mixed"], pool=[False, True, "lazy"], save_every=[None, 2])
     rows, uncovered = covering(rng, opts, 2 if tier == "quick" else 3, 40 if tier == "quick" else 400)
     # the integer pool option with and without checkpoints (run in this process: pool workers cannot have children)
     for k, sv in enumerate([2, None][:2 if tier != "quick" else 1]):
